@@ -7,8 +7,10 @@ the real RocksDB and Fjall.
 
 State:
   disk     column family name ↦ content                (survives `reopen`)
-  cache    stable type id ↦ column family name         (`column_families` / `keyspaces`; per session;
-                                                         keyed by the id ALONE, as in the code)
+  cache    (stable type id, column kind) ↦ family name (`column_families` / `keyspaces`; per session;
+                                                         keyed by id AND kind, as in the code since
+                                                         the repair of F19; `cacheByKind := false`
+                                                         is the historical cache keyed by the id alone)
   batches  handle ↦ raw operations in program order    (`RocksDBWriteBatch` / `FjallWriteBatch`)
   sbufs    handle ↦ buffered operations                (`…SerializationBuffer`)
 -/
@@ -48,9 +50,17 @@ structure Backend where
   /-- Fjall resolves the keyspace when the operation enters the serialization buffer,
       RocksDB when the buffer is consumed -/
   sbufEarly : Bool
+  /-- the per-session cache of column families / keyspaces is keyed by (stable type id, column kind).
+  `false` = the code before the repair of finding F19: keyed by the stable type id ALONE, so a type
+  id used with both kinds got the family of whichever kind touched it first in the session. -/
+  cacheByKind : Bool := true
 
-def rocks : Backend := ⟨"cf_", false, none, true, false⟩
-def fjall : Backend := ⟨"ks_", true, some 65535, false, true⟩
+def rocks : Backend := ⟨"cf_", false, none, true, false, true⟩
+def fjall : Backend := ⟨"ks_", true, some 65535, false, true, true⟩
+
+/-- the backends as they were before the repair of F19 (historical; only used by witnesses) -/
+def rocksF19 : Backend := { rocks with cacheByKind := false }
+def fjallF19 : Backend := { fjall with cacheByKind := false }
 
 /-- A raw operation inside a store write batch; `val = none` is a delete. -/
 structure WOp where
@@ -70,7 +80,7 @@ structure SOp where
 
 structure Db where
   disk : Disk := []
-  cache : List (Nat × String) := []
+  cache : List ((Nat × Kind) × String) := []
   batches : List (Nat × List WOp) := []
   sbufs : List (Nat × List SOp) := []
   /-- Fjall: the visible sequence number of this session is > 0: a keyspace has been created or a
@@ -89,15 +99,20 @@ inductive Res where
   | badHandle
   deriving DecidableEq, Repr
 
+/-- the key under which the family of (type id, kind) is cached: the pair; historically the kind was
+not part of it (modelled by collapsing it) -/
+def cacheKey (be : Backend) (id : Nat) (kind : Kind) : Nat × Kind :=
+  (id, if be.cacheByKind then kind else .wide)
+
 /-- `get_or_create_cf_from_cf_identifier` / `get_or_create_keyspace`: the cache is consulted by
-type id only; on a miss the name is derived from id and kind, the family created if absent. -/
+(type id, kind); on a miss the name is derived from id and kind, the family created if absent. -/
 def resolve (be : Backend) (db : Db) (id : Nat) (kind : Kind) : String × Db :=
-  match aget db.cache id with
+  match aget db.cache (cacheKey be id kind) with
   | some n => (n, db)
   | none =>
     let n := cfName be.namePrefix kind id
     (n, { db with
-            cache := aset db.cache id n
+            cache := aset db.cache (cacheKey be id kind) n
             disk := if (aget db.disk n).isSome then db.disk else db.disk ++ [(n, [])]
             seqPos := db.seqPos || !(aget db.disk n).isSome })
 
